@@ -242,11 +242,10 @@ def mkBody (data : Body) (h : Dict) : Option (List Nat) × Dict :=
 /-- steps 2-4 of `do_request` and the `Request` constructor -/
 def assemble (impl : Impl) (ra : RA) (method : Option Str) (params : Option UDict) (data : Body)
     (resp : List Str) : Sent :=
-  let url := mkUrl impl.address (withQuery ra.path params)
-  let (h1, gen) := withId impl.sendIds ra.headers
-  let (body, h2) := mkBody data h1
-  { url, method := mkMethod method data, headers := normalize h2, body,
-    genId := if gen then some impl.ctr else none, resp }
+  let w := withId impl.sendIds ra.headers
+  let b := mkBody data w.1
+  { url := mkUrl impl.address (withQuery ra.path params), method := mkMethod method data,
+    headers := normalize b.2, body := b.1, genId := if w.2 then some impl.ctr else none, resp }
 
 /-! ## heap -/
 
@@ -364,22 +363,28 @@ def copyHeaders : Option UDict → Dict
   | some d => d.map fun kv => (kv.1, HVal.str kv.2)
   | none => []
 
+/-- what a request through `c` reads: the connection, its `conn_impl`, the content of `c.adapters` -/
+def connView (H : Heap) (c : Nat) : Option (Conn × Impl × List Adapter) :=
+  match H.conns[c]? with
+  | none => none
+  | some cn =>
+    match H.impls[cn.impl]?, H.lists[cn.alist]? with
+    | some impl, some as => some (cn, impl, as)
+    | _, _ => none
+
 /-- a request through connection `c` (any of `get/post/…` passes the method; `do_request` itself
 accepts `None`) -/
 def request (H : Heap) (c : Nat) (args : Args) : Heap × Except Err Sent :=
-  match H.conns[c]? with
-  | none => (H, .error .keyError)
-  | some cn =>
-    match H.impls[cn.impl]?, H.lists[cn.alist]?, optDict H args.headers, optDict H args.params with
-    | some impl, some as, some hd, some pd =>
-      match applyAll as { path := args.path, headers := copyHeaders hd } with
-      | .error e => (H, .error e)
-      | .ok ra =>
-        let s := assemble impl ra args.method pd args.data (responses as)
-        match s.genId with
-        | some _ => ({ H with impls := H.impls.set cn.impl { impl with ctr := impl.ctr + 1 } }, .ok s)
-        | none => (H, .ok s)
-    | _, _, _, _ => (H, .error .keyError)
+  match connView H c, optDict H args.headers, optDict H args.params with
+  | some (cn, impl, as), some hd, some pd =>
+    match applyAll as { path := args.path, headers := copyHeaders hd } with
+    | .error e => (H, .error e)
+    | .ok ra =>
+      let s := assemble impl ra args.method pd args.data (responses as)
+      match s.genId with
+      | some _ => ({ H with impls := H.impls.set cn.impl { impl with ctr := impl.ctr + 1 } }, .ok s)
+      | none => (H, .ok s)
+  | _, _, _ => (H, .error .keyError)
 
 /-- `MCallerHttp.get_conn()` called from a method declared with `components` -/
 def getConn (H : Heap) (k : Nat) (comps : Option (List Str)) : Heap × Except Err Nat :=
